@@ -562,6 +562,20 @@ def run_C14(r, spec, tier):
     return cov
 
 
+def run_C06(r, spec, tier):
+    nrep = r.replay_tier(spec['harness'], extra_env=spec.get('env'))
+    agg = r.campaign(spec['harness'], 'main', tier['shards'], tier['n'], tier['size'], extra_env=spec.get('env'))
+    # a real kill plugin suspended on its prekill hook (the C17 harness in its C06 mode)
+    agg2 = r.campaign('c17', 'kill', tier['shards'], max(100, tier['n'] // 8), tier['size'], extra_env=spec.get('env'))
+    cov = cov_from(agg)
+    cov['evaluations'] += agg2['evaluations']
+    cov['distinct_nontrivial'] = len(agg['hashes'] | agg2['hashes'])
+    cov['sub_campaigns'] = dict(scripted_plugins=agg['evaluations'], real_kill_plugins=agg2['evaluations'],
+                                real_kill_labels=agg2['labels'])
+    cov['replayed'] = nrep
+    return cov
+
+
 def run_C05(r, spec, tier):
     nrep = r.replay_tier(spec['harness'], extra_env=spec.get('env'))
     agg = r.campaign(spec['harness'], 'main', tier['shards'], tier['n'], tier['size'], extra_env=spec.get('env'))
